@@ -393,6 +393,8 @@ class Interp:
             else:
                 st.env[cell] = ENUM(de["adt"], de["variant"], [])
             return PTR(cell)
+        if "named" in op and op.get("promoted") and (ty.startswith("&[") or "; 0]" in ty):
+            return OPAQUE("const " + ty)
         if "named" in op:
             n = op["named"]
             if n.endswith("BigInt::ZERO"):
@@ -659,6 +661,9 @@ class Interp:
             return self.eval_operand(st, rv["op"])
         if k in ("ref", "rawptr"):
             pl = rv["place"]
+            base = st.env.get((st.fid, pl["local"]))
+            if base is not None and base[0] == "opaque":
+                return base
             # pointer to the place
             if pl["proj"] and pl["proj"][0]["k"] == "deref" and len(pl["proj"]) == 1:
                 v = st.env.get((st.fid, pl["local"]))
